@@ -458,7 +458,7 @@ def opt_states_equal(a, b):
         for kk in a["state"][k]:
             x, y = a["state"][k][kk], b["state"][k].get(kk)
             if isinstance(x, torch.Tensor):
-                if not (isinstance(y, torch.Tensor) and torch.equal(x, y)):
+                if not (isinstance(y, torch.Tensor) and same(x.float(), y.float())):
                     return False
             elif x != y:
                 return False
@@ -554,21 +554,21 @@ def run_c19(case):
                     out.append(viol("C19", "weight-file", "does-not-load:" + tag, "", msg=str(ex)[:120]))
         stats["weight_files"] = len(files)
 
-        def same(a, b):
-            return a.keys() == b.keys() and all(torch.equal(a[k], b[k]) for k in a)
+        def same_sd(a, b):
+            return a.keys() == b.keys() and all(same(a[k], b[k]) for k in a)
         if case.get("save_initial", True):
             if "init" not in files:
                 out.append(viol("C19", "weight-file", "missing:init", ""))
-            elif not same(files["init"], ws.before):
+            elif not same_sd(files["init"], ws.before):
                 out.append(viol("C19", "weight-file", "init-file-is-not-the-model-before-training", ""))
         if case.get("save_final", True):
             if "final" not in files:
                 out.append(viol("C19", "weight-file", "missing:final", ""))
-            elif not same(files["final"], ws.after):
+            elif not same_sd(files["final"], ws.after):
                 out.append(viol("C19", "weight-file", "final-file-is-not-the-model-after-training", ""))
         if "min_loss" in files:
             cands = [b for b in ws.batch_start_states if b > 0 and w_int > 0 and (b - 1) % w_int == 0]
-            if not any(same(files["min_loss"], ws.batch_start_states[b]) for b in cands):
+            if not any(same_sd(files["min_loss"], ws.batch_start_states[b]) for b in cands):
                 out.append(viol("C19", "weight-file", "min-loss-file-is-not-a-checked-step", "", checked=cands[:8]))
         elif w_int > 0 and N > 1:
             out.append(viol("C19", "weight-file", "missing:min_loss", ""))
@@ -619,7 +619,7 @@ def run_c19(case):
             if ok_to_compare and res is not None and not res["crashed"]:
                 stats["resumes_compared"] = stats.get("resumes_compared", 0) + 1
                 for name, a, b in zip(full["names"], res["final"], full["final"]):
-                    if not torch.equal(a, b):
+                    if not same(a, b):
                         out.append(viol("C19", "resume", "learnable-state-differs-from-uninterrupted-run", "",
                                         tensor=name, max_abs=float((a - b).abs().max()), schedule=list(schedule)))
                         break
